@@ -211,6 +211,40 @@ func numericCases(rng *Rng, n int) []string {
 	return out
 }
 
+// ---------------------------------------------------------------------------------- empty values and dangling sigils
+
+// empty collections / maps / strings (alone, nested, next to non-empty ones)
+var emptyLits = []string{"{}", "[]", "''", "\"\"", "{ }", "[ ]", "[[]]", "[{}]", "{a: {}}", "{a: []}", "[{}, {a: 1}]", "[[], [1]]", "{a: '', b: {}}", "$p", "null"}
+
+// what is left of an expression when its operand / name / closing bracket is missing: sigils, operators, openers, reserved words
+var danglingBits = []string{"$", "$ ", "$$", "$1.5", "$'x'", "$end", "$-1", "${", "$`", "$.a", "$:A", "$ + 1", ":", ".", "[", "{", "(", ")", "]", "}", "n.", "n:", "n.a =", "n.a IN",
+	"1 +", "+", "*", "-", "^", "NOT", "=", "<>", "n[", "{a:", "{a", "[1,", "'x", "\"x", "`x", "CASE", "CASE WHEN", "[x IN", "[x IN [1] |", "exists(", "count(", "count(*", "null.", "n.a.",
+	"match", "return", "where", "order by", "limit", "as", "in", "is", "is not", "starts with", "and", "or not", "distinct", "true false", "1 2", "n m"}
+
+// expression positions of every clause kind (the literal positions plus ORDER BY lists, SKIP + LIMIT, WITH … WHERE, comprehensions, CASE)
+var exprPositions = append(append([]string{}, numPositions...),
+	"MATCH (n) RETURN n ORDER BY n.name, %s", "MATCH (n) RETURN n ORDER BY %s DESC, n.a", "MATCH (n) RETURN n SKIP %s LIMIT 1", "MATCH (n) RETURN n SKIP 1 LIMIT %s",
+	"MATCH (n) WITH n WHERE n.name = %s RETURN n", "MATCH (n) WITH n ORDER BY %s LIMIT %s RETURN n", "UNWIND %s AS x RETURN x", "RETURN [x IN %s | x]",
+	"RETURN [x IN [1] WHERE %s | x]", "RETURN [x IN [1] | %s]", "RETURN CASE %s WHEN 1 THEN 2 END", "RETURN CASE WHEN %s THEN 1 ELSE 2 END", "RETURN CASE WHEN true THEN %s END",
+	"MATCH (n) WHERE all(x IN %s WHERE x > 0) RETURN n", "MATCH (n) WHERE (n)-[:R {k: %s}]->() RETURN n", "MATCH (n) SET n = %s", "MATCH (n) SET n += %s",
+	"MATCH (n) REMOVE n.a RETURN %s", "MATCH p = shortestPath((a {k: %s})-[*]->(b)) RETURN p", "RETURN %s AS m", "MATCH (n) WHERE n.props = %s RETURN n", "RETURN %s = %s")
+
+// slotCases: every value in n seeded positions (all positions when n <= 0)
+func slotCases(rng *Rng, values []string, positions []string, n int) []string {
+	var out []string
+	for _, v := range values {
+		k := n
+		if k <= 0 || k > len(positions) {
+			k = len(positions)
+		}
+		off := rng.Intn(len(positions))
+		for i := 0; i < k; i++ {
+			out = append(out, strings.ReplaceAll(positions[(off+i*11)%len(positions)], "%s", v))
+		}
+	}
+	return out
+}
+
 // ---------------------------------------------------------------------------------- payloads inside unsupported constructs
 
 var unsupMethodRe = regexp.MustCompile(`func \(s \*(\w+)\) EnterOC_(\w+)\([^)]*\) \{\s*s\.newUnsupportedRuleError\(`)
